@@ -2,7 +2,9 @@
 C14 for the waiter / watch logic of the public HTTP handler (model: Drand/Http/Waiters.lean).
 -/
 import Drand.Http.Waiters
--- import DrandProofs.C14
+import Drand.Driver.HttpW
+import Gen.HttpW
+import DrandProofs.C14
 
 namespace Drand.Http
 
@@ -1113,5 +1115,67 @@ example : (run .asIs (exParked ++ [.wClosed])).wpc = .gotClosed ∧ (run .asIs (
     (run .asIs (exParked ++ [.wClosed])).latest = 10 := by decide
 example : (healthAnswer 10 (some exInfo) exNow).1 = 200 ∧ (healthAnswer 9 (some exInfo) exNow).1 = 200 ∧
     (healthAnswer 8 (some exInfo) exNow).1 = 503 ∧ (healthAnswer 10 none exNow).1 = 503 := by decide
+
+/-! ## ties: the facts the model rests on, regenerated from handler/http/server.go on every run (Gen/HttpW.lean) -/
+
+open Drand.Driver.HttpWD in
+/-- a waiter channel is `make(chan []byte, 1)` (capacity 1: `Chan.buf : Option Payload`) and `close(ch)` is deferred
+right after it (`closeStep` is the last step of every request that made one) -/
+theorem tie_waiter_channel : Gen.HttpW.waiterChanCap = 1 ∧ Gen.HttpW.waiterCloseDeferred = true := ⟨rfl, rfl⟩
+
+/-- the two evaluations of `block` are what `eval1` / `eval2` are: the first under RLock … RUnlock, the second and the
+registration under Lock … Unlock, nothing else inside -/
+theorem tie_eval_regions :
+    Gen.HttpW.eval1Region = ["bh.pendingLk.RLock()", "block = (bh.latestRound+1 == round) && bh.latestRound != 0", "bh.pendingLk.RUnlock()"] ∧
+    Gen.HttpW.eval2Region = ["bh.pendingLk.Lock()", "block = (bh.latestRound+1 == round) && bh.latestRound != 0",
+                             "if block { bh.pending = append(bh.pending, ch) }", "bh.pendingLk.Unlock()"] := ⟨rfl, rfl⟩
+
+/-- the cancellation branch: `dereg` (Lock, deferred Unlock, removal), `drain`, return (`cUnlock`, then `close`) -/
+theorem tie_cancel_branch :
+    Gen.HttpW.cancelBranch = ["bh.pendingLk.Lock()", "defer bh.pendingLk.Unlock()",
+      "for i, c := range bh.pending { if c == ch { bh.pending = append(bh.pending[:i], bh.pending[i+1:]...) break } }",
+      "select { case <-ch: default: }", "return nil, ctx.Err()"] := rfl
+
+/-- **the notification loop runs between `pendingLk.Lock()` and `Unlock()`** (`wLock`, `wSend`*, `wUnlock`), after the
+unexpected-round test, the assignment of `latestRound` and the swap of `pending`; nothing follows the Unlock -/
+theorem tie_notify_region :
+    Gen.HttpW.notifyRegion = ["bh.pendingLk.Lock()", "if bh.latestRound+1 != next.GetRound() && bh.latestRound != 0 { b = []byte{} }",
+      "bh.latestRound = next.GetRound()", "pending := bh.pending", "bh.pending = make([]chan []byte, 0)",
+      "for _, waiter := range pending { waiter <- b }", "bh.pendingLk.Unlock()"] ∧
+    Gen.HttpW.afterNotify = [] := ⟨rfl, rfl⟩
+
+open Drand.Driver.HttpWD in
+/-- the stream-failure branch is one of the two modelled variants (`Cfg.flushOnFail`) -/
+theorem tie_fail_region : Gen.HttpW.failRegion = asIsFail ∨ Gen.HttpW.failRegion = fixedFail := by decide
+
+/-! ### DrandHandler.beacons and DrandHandler.state -/
+
+def beaconsTableAsIs : List (String × String × String) :=
+  [("RegisterNewBeaconHandler", "write", "Lock"), ("RemoveBeaconHandler", "write", "Lock"),
+   ("RegisterDefaultBeaconHandler", "write", "Lock"), ("ChainHashes", "iterate", "none"), ("getBeaconHandler", "read", "RLock")]
+
+def beaconsTableFixed : List (String × String × String) :=
+  [("RegisterNewBeaconHandler", "write", "Lock"), ("RemoveBeaconHandler", "write", "Lock"),
+   ("RegisterDefaultBeaconHandler", "write", "Lock"), ("ChainHashes", "iterate", "RLock"), ("getBeaconHandler", "read", "RLock")]
+
+/-- the lock table of `DrandHandler.beacons` as regenerated is one of the two known ones -/
+theorem tie_beacons_lock_table :
+    Gen.HttpW.beaconsAccess = beaconsTableAsIs ∨ Gen.HttpW.beaconsAccess = beaconsTableFixed := by decide
+
+/-- **c14_http_beacons_guarded** (patched code, reports/http_fix_2.diff): every method that reads or writes the handler
+table does so under `h.state`, writers under the write lock -/
+theorem c14_http_beacons_guarded :
+    ∀ a ∈ beaconsTableFixed, a.2.2 ≠ "none" ∧ (a.2.1 = "write" → a.2.2 = "Lock") := by decide
+
+/-- (code as it is) … every method except `ChainHashes` -/
+theorem c14_http_beacons_guarded_partial :
+    ∀ a ∈ beaconsTableAsIs, a.1 ≠ "ChainHashes" → (a.2.2 ≠ "none" ∧ (a.2.1 = "write" → a.2.2 = "Lock")) := by decide
+
+/-- (code as it is) `ChainHashes` ranges over the map with no lock while three methods write it under the lock: a
+concurrent map iteration and map write, which the Go runtime answers with an unrecoverable `fatal error`
+(replayed on the real handler: engine `httpw`, op `chainsrace`) -/
+theorem c14_http_beacons_counterexample :
+    ("ChainHashes", "iterate", "none") ∈ beaconsTableAsIs ∧ (beaconsTableAsIs.filter fun a => a.2.1 == "write").length = 3 := by
+  decide
 
 end Drand.Http
